@@ -54,6 +54,7 @@ type Run struct {
 	Sub    chan tracing.ITrace
 
 	NTraces    int
+	Stream     []string // compact rendering of every trace received, in order
 	Tasks      []*PTask
 	Errors     []error
 	Completed  []string // CompletionTrace node ids in stream order
@@ -72,6 +73,7 @@ type Run struct {
 	InstIDs    []string
 
 	StartReturned bool
+	AfterStart    func() // called by the starter goroutine once StartAll has returned
 	StartErr      error
 	Waits         []*Wait
 
@@ -160,6 +162,7 @@ func (r *Run) onTrace(raw tracing.ITrace) {
 		_ = it
 	}
 	t := tracing.Unwrap(raw)
+	r.Stream = append(r.Stream, brief(t))
 	isCease := false
 	switch x := t.(type) {
 	case bpmn.TaskTrace:
@@ -257,6 +260,9 @@ func (r *Run) StartAll() {
 	go func() {
 		r.StartErr = r.P.StartAll(r.Ctx)
 		r.StartReturned = true
+		if r.AfterStart != nil {
+			r.AfterStart()
+		}
 	}()
 }
 
@@ -371,3 +377,67 @@ func eqStrings(a, b []string) bool {
 
 // Idle waits for quiescence.
 func Idle() { verifrt.WaitIdle() }
+
+func brief(t tracing.ITrace) string {
+	switch x := t.(type) {
+	case bpmn.TaskTrace:
+		return "Task(" + nodeID(x.GetActivity().Element()) + ")"
+	case bpmn.ErrorTrace:
+		return fmt.Sprintf("Error(%v)", x.Error)
+	case bpmn.CompletionTrace:
+		return "Completion(" + nodeID(x.Node) + ")"
+	case bpmn.CeaseFlowTrace:
+		return "CeaseFlow"
+	case bpmn.VisitTrace:
+		return "Visit(" + nodeID(x.Node) + ")"
+	case bpmn.LeaveTrace:
+		return "Leave(" + nodeID(x.Node) + ")"
+	case bpmn.NewFlowTrace:
+		return "NewFlow(" + x.FlowId.String() + ")"
+	case bpmn.FlowTrace:
+		s := "Flow(" + nodeID(x.Source) + "->"
+		for i, f := range x.Flows {
+			if i > 0 {
+				s += ","
+			}
+			tgt := "?"
+			if sf := f.SequenceFlow(); sf != nil {
+				tgt = *sf.TargetRef()
+			}
+			s += f.Id().String() + ":" + tgt
+		}
+		return s + ")"
+	case bpmn.TerminationTrace:
+		return "Termination(" + x.FlowId.String() + "@" + nodeID(x.Source) + ")"
+	case bpmn.CancellationFlowTrace:
+		return "CancelFlow(" + x.FlowId.String() + "@" + nodeID(x.Node) + ")"
+	case bpmn.CancellationFlowNodeTrace:
+		return "CancelNode(" + nodeID(x.Node) + ")"
+	case bpmn.ActiveBoundaryTrace:
+		return fmt.Sprintf("ActiveBoundary(%s,%v)", nodeID(x.Node), x.Start)
+	case bpmn.ActiveListeningTrace:
+		p, _ := x.Node.Id()
+		return "Listening(" + *p + ")"
+	case bpmn.EventObservedTrace:
+		p, _ := x.Node.Id()
+		return "Observed(" + *p + ")"
+	case bpmn.ProcessLandMarkTrace:
+		return "LandMark(" + nodeID(x.Node) + ")"
+	case bpmn.DeterminationMadeTrace:
+		return "Determination(" + nodeID(x.Node) + ")"
+	case bpmn.InstantiationTrace:
+		return "Instantiation"
+	case bpmn.IncomingFlowProcessedTrace:
+		p, _ := x.Node.Id()
+		return "IncomingProcessed(" + *p + ")"
+	}
+	return fmt.Sprintf("%T", t)
+}
+
+// Tail returns the last n entries of the trace stream.
+func (r *Run) Tail(n int) []string {
+	if len(r.Stream) > n {
+		return r.Stream[len(r.Stream)-n:]
+	}
+	return r.Stream
+}
